@@ -166,6 +166,33 @@ def array_part(ob):
                 ob.check(f"numpy/setitem/{m}=={n}{sid}", np.array_equal(b[n], c[n]) and np.array_equal(np.asarray(b).tolist(), np.asarray(c).tolist()))
             except Exception as e:
                 ob.check(f"numpy/field/{m}=={n}{sid}", False, f"{type(e).__name__}: {e}")
+        # every mixture of spellings (each coordinate independently geometric or any of its synonyms): record layout, rows,
+        # element access and the coordinate sub-views are those of the geometric spelling
+        import itertools
+        ALLSYN = {"x": ["x", "px"], "y": ["y", "py"], "rho": ["rho", "pt"], "phi": ["phi"], "z": ["z", "pz"], "theta": ["theta"], "eta": ["eta"],
+                  "t": ["t", "E", "e", "energy"], "tau": ["tau", "M", "m", "mass"]}
+        from vector._methods import _repr_momentum_to_generic as _G
+        ref_rows = a_gen.view(np.ndarray).tolist()
+        parts = ["azimuthal"] + (["longitudinal"] if d >= 3 else []) + (["temporal"] if d == 4 else [])
+        for combo in itertools.product(*[ALLSYN[n] for n in names]):
+            if list(combo) == list(names):
+                continue
+            cid = f"{{{','.join(combo)}}}"
+            try:
+                arr = vector.array({c: data[n] for c, n in zip(combo, names)})
+                ob.check(f"numpy/mixed-spelling/layout{cid}", [_G.get(c, c) for c in arr.dtype.names] == list(a_gen.dtype.names), str(arr.dtype.names))
+                ob.check(f"numpy/mixed-spelling/rows{cid}", arr.view(np.ndarray).tolist() == ref_rows)
+                ok_el = ok_sub = True
+                for i in range(3):
+                    e1, e0 = arr[i], a_gen[i]
+                    ok_el = ok_el and all(getattr(e1, n) == getattr(e0, n) for n in names)
+                    for part in parts:
+                        ok_sub = ok_sub and tuple(getattr(arr, part)[i].elements) == tuple(getattr(a_gen, part)[i].elements)
+                ob.check(f"numpy/mixed-spelling/element{cid}", ok_el)
+                ob.check(f"numpy/mixed-spelling/coordinate-subview-element{cid}", ok_sub)
+                ob.check(f"numpy/mixed-spelling/flavor{cid}", isinstance(arr, vector.Momentum) == any(c != n for c, n in zip(combo, names)))
+            except Exception as e:
+                ob.check(f"numpy/mixed-spelling{cid}", False, f"{type(e).__name__}: {str(e)[:150]}")
         if ak is not None:
             try:
                 k_mom = vector.Array([{m: float(data[n][i]) for m, n in zip(mnames, names)} for i in range(3)])
